@@ -228,35 +228,40 @@ def getscript (c : Client) (name : Bytes) : Res (Option Bytes) :=
 
 def setErrmsg (c : Client) (m : Bytes) : Client := { c with r := { c.r with errmsg := m } }
 
+/-- activate the copy when the renamed script was the active one -/
+def activateIfNeeded (c : Client) (active : Option Bytes) (old new : Bytes) : Res Bool :=
+  if active == some old then setactive c new else (.ok true, c)
+
+/-- the emulated rename: LISTSCRIPTS → GETSCRIPT old → PUTSCRIPT new → [SETACTIVE new] → DELETESCRIPT old -/
+def emulatedRename (c : Client) (old new : Bytes) : Res Bool :=
+  match listscripts c with
+  | (.error e, c1) => (.error e, c1)
+  | (.ok none, c1) => (.ok false, c1)
+  | (.ok (some (active, scripts)), c1) =>
+    if active != some old && !decide (old ∈ scripts) then
+      (.ok false, setErrmsg c1 (sb "Old script does not exist"))
+    else if decide (new ∈ scripts) || active == some new then
+      (.ok false, setErrmsg c1 (sb "New script already exists"))
+    else
+      match getscript c1 old with
+      | (.error e, c2) => (.error e, c2)
+      | (.ok none, c2) => (.ok false, c2)
+      | (.ok (some body), c2) =>
+        match putscript c2 new body with
+        | (.error e, c3) => (.error e, c3)
+        | (.ok false, c3) => (.ok false, c3)
+        | (.ok true, c3) =>
+          match activateIfNeeded c3 active old new with
+          | (.error e, c4) => (.error e, c4)
+          | (.ok false, c4) => (.ok false, c4)
+          | (.ok true, c4) => deletescript c4 old
+
 /-- `renamescript`, native or emulated -/
 def renamescript (c : Client) (old new : Bytes) : Res Bool :=
   guarded c fun c =>
     if capHas c (sb "VERSION") then
       okOf (sendCommand c (sb "RENAMESCRIPT") [.str old, .str new])
-    else
-      match listscripts c with
-      | (.error e, c1) => (.error e, c1)
-      | (.ok none, c1) => (.ok false, c1)
-      | (.ok (some (active, scripts)), c1) =>
-        if active != some old && !decide (old ∈ scripts) then
-          (.ok false, setErrmsg c1 (sb "Old script does not exist"))
-        else if decide (new ∈ scripts) || active == some new then
-          (.ok false, setErrmsg c1 (sb "New script already exists"))
-        else
-          match getscript c1 old with
-          | (.error e, c2) => (.error e, c2)
-          | (.ok none, c2) => (.ok false, c2)
-          | (.ok (some body), c2) =>
-            match putscript c2 new body with
-            | (.error e, c3) => (.error e, c3)
-            | (.ok false, c3) => (.ok false, c3)
-            | (.ok true, c3) =>
-              let activate : Res Bool :=
-                if active == some old then setactive c3 new else (.ok true, c3)
-              match activate with
-              | (.error e, c4) => (.error e, c4)
-              | (.ok false, c4) => (.ok false, c4)
-              | (.ok true, c4) => deletescript c4 old
+    else emulatedRename c old new
 
 def capability (c : Client) : Res (Option Bytes) :=
   match sendCommand c (sb "CAPABILITY") [] with
